@@ -122,7 +122,8 @@ def check_graph(ctx, spec):
         sid_of = {}
         for _, sid, state in got_dumps:
             sid_of.setdefault(term.from_bytes(state).dig if state else None, []).append(sid)
-        if sorted(k for k in sid_of if k) != sorted(s.dig for s in dumps.values()) or len(got_dumps) != len(dumps):
+        got_digs = sorted(k for k, sids in sid_of.items() if k for _ in sids)  # multiset: twin groups may dump equal states
+        if got_digs != sorted(s.dig for s in dumps.values()) or len(got_dumps) != len(dumps):
             ctx.fail(spec, 'assets-dump', 'states', f'expected {len(dumps)} dumps of {list(dumps.values())!r}, got {len(got_dumps)}')
         elif len(puts) != 1:
             ctx.fail(spec, 'assets-commit', 'count', f'{len(puts)} commits')
@@ -145,22 +146,26 @@ def check_graph(ctx, spec):
 
 def campaigns(ctx):
     return [
-        Campaign('graph', graphgen.graphs(max_nodes=11), check_graph, 2500, 20000),
-        Campaign('graph-large', graphgen.graphs(max_nodes=24), check_graph, 150, 3000),
+        Campaign('graph', graphgen.graphs(max_nodes=11), check_graph, 2500, 12000),
+        Campaign('graph-large', graphgen.graphs(max_nodes=24), check_graph, 150, 1500),
     ]
 
 
 def enumerate_extra(ctx, shard, nshards):
-    """Thorough tier: every graph of a small scope (exhaustive): up to 3 nodes after the head, ports <= 2."""
-    if ctx.tier != 'thorough':
-        return
+    """Every graph of a small scope (exhaustive; see vf/sym/enumgraphs.py): quick = 1 node between head and tail,
+    thorough = 2 nodes with shapes up to 2x2 and 3 nodes of shape 1x1."""
     from vf.sym import enumgraphs
 
     ctx.campaign = 'graph'
+    scopes = [(1, ((1, 1), (2, 1), (1, 2)))]
+    if ctx.tier == 'thorough':
+        scopes = [(2, ((1, 1), (2, 1), (1, 2))), (3, ((1, 1),))]
     n = 0
-    for k, spec in enumerate(enumgraphs.all_graphs()):
-        if k % nshards != shard:
-            continue
-        check_graph(ctx, spec)
-        n += 1
+    for middle, shapes in scopes:
+        for k, spec in enumerate(enumgraphs.all_graphs(middle, shapes)):
+            if k % nshards != shard:
+                continue
+            check_graph(ctx, spec)
+            n += 1
     ctx.extra['enumerated_small_scope'] = ctx.extra.get('enumerated_small_scope', 0) + n
+    ctx.extra['small_scope'] = [f'middle<={m} shapes={list(sh)}' for m, sh in scopes]
